@@ -357,8 +357,14 @@ fn gen_cam(rng: &mut Rng) -> Cam {
         _ => [small_q(rng, 9, 4), small_q(rng, 9, 4), small_q(rng, 9, 4)],
     };
     let d = small_q_pos(rng, 9, 4);
-    let alpha = small_q_pos(rng, 6, 3);
-    let beta = if rng.chance(1, 4) { Q::ZERO } else { small_q(rng, 6, 3) };
+    // only the direction of `up` matters: a sixth of the cameras have a very short or very long up
+    // (|up x f|^2 far below the element type's epsilon, or huge); the matrices must not change
+    let alpha = match rng.below(12) {
+        0 => Q::frac(1, 1i64 << *rng.pick(&[20u32, 27, 30, 34])),
+        1 => Q::int(1i64 << *rng.pick(&[12u32, 20, 24])),
+        _ => small_q_pos(rng, 6, 3),
+    };
+    let beta = if rng.chance(1, 4) { Q::ZERO } else if alpha < Q::frac(1, 1000) { alpha * small_q(rng, 6, 3) } else { small_q(rng, 6, 3) };
     let mut target = [Q::ZERO; 3];
     let mut up = [Q::ZERO; 3];
     for i in 0..3 {
@@ -546,6 +552,15 @@ fn gen_float_cam<T: Fl>(rng: &mut Rng) -> ([T; 3], [T; 3], [T; 3]) {
             let p = r3(rng, tiny);
             ([e[0], e[1], e[2]], t, [k * (t[0] - e[0]) + p[0], k * (t[1] - e[1]) + p[1], k * (t[2] - e[2]) + p[2]])
         }
+        6 | 7 => {
+            // very short / very long up vectors (only the direction of up matters), also with a
+            // short or long eye-target distance
+            let s = 10f64.powf(rng.f64_in(-6.0, 6.0));
+            let e = r3(rng, 10.0);
+            let dd = 10f64.powf(rng.f64_in(-1.0, 3.0));
+            let dirv = r3(rng, 1.0);
+            (e, [e[0] + dirv[0] * dd, e[1] + dirv[1] * dd, e[2] + dirv[2] * dd], r3(rng, s))
+        }
         _ => {
             let s = *rng.pick(&[0.1, 1.0, 10.0]);
             (r3(rng, 10.0), r3(rng, 10.0), r3(rng, s))
@@ -570,7 +585,7 @@ fn look_float_case<T: Fl, M: Look<T>>(sub: &mut Sub, cfg: &Config, idx: u64, sub
     let ul = norm3(up);
     for kind in [ViewLh, ViewRh, ModelLh, ModelRh] {
         let api = kind.api();
-        if !(d >= 0.1) || !(ul >= 1e-3) {
+        if !(d >= 0.01) || !(ul >= 1e-12) {
             sub.saw(api);
             sub.inconclusive("outside_domain:eye_equals_target_or_zero_up");
             continue;
